@@ -127,7 +127,7 @@ def solve_loop(h):
     _solve(h)
 
 
-@contract('C05/AbstractSolver.Solve', ['C05', 'C03', 'C04'], A + '::AbstractSolver.Solve', native=False)
+@contract('C05/AbstractSolver.Solve', ['C05', 'C03', 'C04', 'C06'], A + '::AbstractSolver.Solve', native=False)
 def solve_entry(h):
     """Solve: the keyword settings are processed, then the objective is fetched (so constraints= / penalty= given to
     Solve are in force for the whole run), the termination is installed, the run loop is entered exactly once with the
@@ -254,11 +254,16 @@ def _de_process_inputs(h, cls):
     and kept when not given; the mutation strategy is handed back in the settings and remembered by name"""
     if not h.is_sym():
         h.unsupported('symbolic only')
-    given = h.choice('keywords', [(), ('CrossProbability',), ('ScalingFactor',), ('CrossProbability', 'ScalingFactor', 'callback')])
+    given = h.choice('keywords', [(), ('CrossProbability',), ('ScalingFactor',), ('CrossProbability', 'ScalingFactor', 'callback'), ('strategy',),
+                                  ('strategy', 'ScalingFactor')])
+    before = h.choice('strategy_remembered_from_earlier', ['Best1Bin', 'Rand1Exp'])
     cr0, f0 = h.real('probability_before'), h.real('scale_before')
     cr, f = h.real('CrossProbability'), h.real('ScalingFactor')
-    s = h.obj(cls, probability=cr0, scale=f0, strategy='Best1Bin')
+    s = h.obj(cls, probability=cr0, scale=f0, strategy=before)
     vals = {}
+    strat = h.fn('USER_STRATEGY', ret='none', attrs={'__name__': 'RandToBest1Bin'})
+    if 'strategy' in given:
+        vals['strategy'] = strat
     if 'CrossProbability' in given:
         vals['CrossProbability'] = cr
     if 'ScalingFactor' in given:
@@ -272,11 +277,20 @@ def _de_process_inputs(h, cls):
     h.check('scaling-factor-as-given-else-kept', 'p == want', p=h.field(s, 'scale'), want=f if 'ScalingFactor' in given else f0)
     cell = h.st.heap[r]
     h.check('callback-handed-back-and-a-strategy-selected', 'ok',
-            ok=(cell.get('callback') is (cb if 'callback' in given else None)) and 'strategy' in cell and h.field(s, 'strategy') == 'Best1Bin')
+            ok=(cell.get('callback') is (cb if 'callback' in given else None)) and 'strategy' in cell)
+    # sticky by NAME: the solver's own state (what a checkpoint carries) names the strategy in force, so a restored
+    # solver continues with it; without the keyword the remembered strategy is the one handed to the iteration
+    if 'strategy' in given:
+        h.check('C06/strategy-keyword-is-used-and-remembered-in-the-solver-state', 'ok',
+                ok=(cell['strategy'] is strat and h.field(s, 'strategy') == 'RandToBest1Bin'))
+    else:
+        got = cell['strategy']
+        h.check('C06/remembered-strategy-is-the-one-used-and-stays-remembered', 'ok',
+                ok=(getattr(got, 'qualname', None) == before and h.field(s, 'strategy') == before))
 
 
 DEF = 'mystic/differential_evolution.py::'
-contract('C08/DE1._process_inputs', ['C08', 'C07'], DEF + 'DifferentialEvolutionSolver._process_inputs', native=False)(
+contract('C08/DE1._process_inputs', ['C08', 'C07', 'C06'], DEF + 'DifferentialEvolutionSolver._process_inputs', native=False)(
     lambda h: _de_process_inputs(h, DEF + 'DifferentialEvolutionSolver'))
-contract('C08/DE2._process_inputs', ['C08', 'C07'], DEF + 'DifferentialEvolutionSolver2._process_inputs', native=False)(
+contract('C08/DE2._process_inputs', ['C08', 'C07', 'C06'], DEF + 'DifferentialEvolutionSolver2._process_inputs', native=False)(
     lambda h: _de_process_inputs(h, DEF + 'DifferentialEvolutionSolver2'))
